@@ -856,6 +856,41 @@ def paired_names(tree: ast.AST) -> ast.AST:
     return ast.fix_missing_locations(_PairedNames().visit(tree))
 
 
+class _ItemsLoops(ast.NodeTransformer):
+    """`for k, v in D.items(): BODY`  ->  `for k in D: BODY` with every read of v written `D[k]` (D a plain
+    name/attribute chain that BODY does not rebind, v not rebound in BODY): the value paired with a key is the entry
+    under that key."""
+    def visit_For(self, node):
+        self.generic_visit(node)
+        it = node.iter
+        if isinstance(it, ast.Call) and isinstance(it.func, ast.Attribute) and it.func.attr == "items" and not it.args and not it.keywords \
+                and _pure_chain(it.func.value) and isinstance(node.target, ast.Tuple) and len(node.target.elts) == 2 \
+                and all(isinstance(t, ast.Name) for t in node.target.elts) and not node.orelse:
+            k, v = node.target.elts[0].id, node.target.elts[1].id
+            root = it.func.value
+            while isinstance(root, (ast.Attribute, ast.Subscript)):
+                root = root.value
+            body_stores = {x.id for b in node.body for x in ast.walk(b) if isinstance(x, ast.Name) and isinstance(x.ctx, (ast.Store, ast.Del))}
+            if v in body_stores or k in body_stores or root.id in body_stores or k == v:
+                return node
+            import copy as _c
+            D = it.func.value
+
+            class R(ast.NodeTransformer):
+                def visit_Name(self, x):
+                    if x.id == v and isinstance(x.ctx, ast.Load):
+                        return ast.copy_location(ast.Subscript(_c.deepcopy(D), ast.Name(k, ast.Load()), ast.Load()), x)
+                    return x
+            node.body = [R().visit(b) for b in node.body]
+            node.target = ast.copy_location(ast.Name(k, ast.Store()), node.target)
+            node.iter = D
+        return node
+
+
+def items_loops(tree: ast.AST) -> ast.AST:
+    return ast.fix_missing_locations(_ItemsLoops().visit(tree))
+
+
 class AnalysisError(Exception):
     """Anchor vanished / unparsable file / floor not met: exit 2, never a pass."""
 
@@ -1014,7 +1049,7 @@ class Repo:
         from .inline import inline_new_helpers, known_functions, undo_renames
         self.renamed = undo_renames({mod: v[3] for mod, v in raw.items()})
         for mod, (path, rel, src, tree) in raw.items():
-            tree = paired_names(literal_forms(numpy_idioms(function_aliases(strip_inert(tree)))))
+            tree = items_loops(paired_names(literal_forms(numpy_idioms(function_aliases(strip_inert(tree))))))
             tree, inl, skipped = inline_new_helpers(tree, mod, known_functions())
             if inl:
                 self.inlined[mod] = sorted(set(inl))
